@@ -50,6 +50,8 @@ pub enum Expr {
     Add(String, i64),
     /// fails (undeclared variable)
     Bad,
+    /// verbatim expression text with the integer value the reference expects (e.g. `_event.data.p`)
+    Raw(String, i64),
 }
 
 #[derive(Clone, Debug, PartialEq)]
@@ -260,6 +262,7 @@ pub fn render_expr(e: &Expr) -> String {
         Expr::Var(v) => v.clone(),
         Expr::Add(v, k) => format!("{} + {}", v, k),
         Expr::Bad => "undeclared_expr_var + 1".to_string(),
+        Expr::Raw(t, _) => t.clone(),
     }
 }
 
